@@ -416,6 +416,12 @@ func visitInstr(fr *frame, instr ssa.Instruction) continuation {
 		x := fr.get(instr.X)
 		idx := fr.get(instr.Index)
 
+		if _, symIdx := idx.(sv); symIdx {
+			if v, ok := fr.indexIte(x, idx); ok {
+				fr.env[instr] = v
+				break
+			}
+		}
 		switch x := x.(type) {
 		case array:
 			fr.env[instr] = x[fr.index(idx, len(x))]
@@ -594,10 +600,13 @@ func callSSA(i *interpreter, caller *frame, callpos token.Pos, fn *ssa.Function,
 			}
 		}
 		if ext := externals[name]; ext != nil {
-			if i.inHarness {
-				i.stubHits[name]++
+			r := ext(fr, args)
+			if _, real := r.(runRealCode); !real {
+				if i.inHarness {
+					i.stubHits[name]++
+				}
+				return r
 			}
-			return ext(fr, args)
 		}
 		if fn.Blocks == nil {
 			panic(engineError{"not encodable: no code for function " + name})
